@@ -66,6 +66,10 @@ E2KDir(root, rec) ==
 Dump(p) == /\ fs' = [fs EXCEPT ![p] = "D1"]
            /\ last' = [act |-> "dump", targets |-> {p}, dir |-> p[1], rec |-> FALSE]
 
+\* dump with every option given: writes exactly what dumps returns for the same options (label X1)
+DumpOpts(p) == /\ fs' = [fs EXCEPT ![p] = "X1"]
+               /\ last' = [act |-> "dump_opts", targets |-> {p}, dir |-> p[1], rec |-> FALSE]
+
 (* ------------------------------- properties ----------------------------- *)
 OnlyTargetsChange == [][\A p \in Paths : fs'[p] # fs[p] => p \in last'.targets]_fcVars
 NonRecursiveStaysShallow == [][(last'.act \in {"k2e_dir", "e2k_dir"} /\ ~last'.rec) => \A p \in last'.targets : p[1] = last'.dir]_fcVars
